@@ -129,7 +129,7 @@ impl Prop for C10 {
         Describe {
             level: "exploration",
             rule: "each case = one seeded run: a history of add_known_address operations (address shapes: dead and live ip4/ip6 hosts, public/private ranges, missing / foreign / duplicate peer ids, unspecified IPs, the node's own listen address, ws / quic / trailing components; up to 200 distinct addresses per peer against the bound of 64) interleaved with dial(peer) operations whose attempts are resolved by SimNet (refused, black-holed, connected), with re-additions of already scored addresses, connection limit knob, carrier and scheduler knobs; non-trivial = scheduler had >=1 choice point; distinct = distinct trace hash".into(),
-            real: vec!["Litep2p::add_known_address / dial", "TransportManagerHandle (address filtering)", "AddressStore (scoring, eviction)", "TransportManager (dial address selection, score updates)", "TcpTransport::open (sequential dialing)", "Noise", "yamux", "ping"],
+            real: vec!["Litep2p::add_known_address / dial", "TransportManagerHandle (address filtering)", "AddressStore (scoring, eviction)", "TransportManager (dial address selection, score updates)", "WebSocketTransport/WebSocketConnection + tokio-tungstenite (runs with the second transport)", "TcpTransport::open (sequential dialing)", "Noise", "yamux", "ping"],
             stub: vec!["socket layer (SimNet)", "clock", "task scheduler (seeded)", "DNS (dns addresses are stored but never dialed)"],
             assumptions: vec![
                 "the address list handed to Transport::open is observed as the order of SimNet connection attempts with max_parallel_dials = 1",
